@@ -14,7 +14,9 @@ inheritance, by the isinstance refusal chain of SMGen.sample whose body always r
 trials_per_sample() scaling), or (c) in the frozen 'internal' table (Cross, Consistency, Derivation: regenerated
 by the scattered-map encoding; Reify, ContinuousConstraint: not predicates on the discrete sequence).  Block
 kinds: multi-crossing blocks are refused by a test on len(block.crossings) whose body always raises.  A new
-constraint class, or a class dropped from the chain, is reported.
+constraint class, or a class dropped from the chain, is reported.  (reset) the scattered-map core's module state is
+re-initialised between calls: every assignment of reset_state rebinds a declared global, every module global written by
+the core is among them, and SMGen.sample calls reset_state before any encoding call.
 """
 NOT_DECIDED = ("validity of what the scattered-map search returns for supported designs, including the trial count "
                "when a MinimumTrials is met by Repeat (a runtime quantity).")
@@ -46,6 +48,76 @@ def _body_refuses(repo, mod, body) -> bool:
         if isinstance(st, ast.Expr) and isinstance(st.value, ast.Call) and _always_raises_call(repo, mod, st.value):
             return True
     return False
+
+
+_MUT = {"append", "extend", "insert", "pop", "remove", "clear", "sort", "reverse", "update", "add", "setdefault"}
+
+
+def rule_reset(ctx):
+    """The scattered-map core keeps the encoded experiment in module globals.  A second SMGen call is independent of the
+    first only if (a) every assignment in reset_state really rebinds the module global (the name is declared `global`
+    there; otherwise the assignment creates a dead local and the old value survives), (b) every module global that some
+    function rebinds or mutates in place is reset, (c) SMGen.sample calls reset_state before it encodes the experiment."""
+    R = "C29.reset"
+    mod = ctx.repo.module("scattered_map_core")
+    tree = mod.tree if hasattr(mod, "tree") else ast.parse(mod.src)
+    modnames = set()
+    for st in tree.body:
+        if isinstance(st, (ast.Assign, ast.AugAssign, ast.AnnAssign)):
+            for tg in (st.targets if isinstance(st, ast.Assign) else [st.target]):
+                modnames |= {n.id for n in ast.walk(tg) if isinstance(n, ast.Name)}
+    info = {}
+    for fn in [x for x in tree.body if isinstance(x, ast.FunctionDef)]:
+        g, assigned, mutated = set(), set(), set()
+        for n in ast.walk(fn):
+            if isinstance(n, ast.Global):
+                g |= set(n.names)
+        locs = {a.arg for a in fn.args.args}
+        for n in ast.walk(fn):
+            if isinstance(n, (ast.Assign, ast.AugAssign)):
+                for tg in (n.targets if isinstance(n, ast.Assign) else [n.target]):
+                    for e in (tg.elts if isinstance(tg, (ast.Tuple, ast.List)) else [tg]):
+                        if isinstance(e, ast.Name):
+                            assigned.add(e.id)
+                        elif isinstance(e, ast.Subscript):
+                            b = e
+                            while isinstance(b, ast.Subscript):
+                                b = b.value
+                            if isinstance(b, ast.Name):
+                                mutated.add(b.id)
+            if isinstance(n, ast.Call) and isinstance(n.func, ast.Attribute) and n.func.attr in _MUT:
+                b = n.func.value
+                while isinstance(b, ast.Subscript):
+                    b = b.value
+                if isinstance(b, ast.Name):
+                    mutated.add(b.id)
+        localnames = (assigned - g) | locs
+        info[fn.name] = (g, assigned, {m_ for m_ in mutated if m_ in modnames and m_ not in localnames}, fn)
+    ctx.require("reset_state" in info, "scattered_map_core.reset_state not found")
+    rs = ctx.fn("scattered_map_core:reset_state")
+    rg, ra, _m, rnode = info["reset_state"]
+    ctx.require(len(ra) >= 20, "reset_state assigns only %d names" % len(ra))
+    dead = sorted(ra - rg)
+    ctx.check(not dead, R, rs, "reset assignments rebind globals (%d)" % len(ra), "every name assigned in reset_state is declared global there",
+              "reset_state assigns %s without declaring %s global: the assignment creates a local and the module state of the previous SMGen run survives "
+              "(stale weights / factors leak into the next call)" % (dead, "them" if len(dead) > 1 else "it"), rnode)
+    written = set()
+    for k, (g, a, m_, _fn) in info.items():
+        if k != "reset_state":
+            written |= (g & a) | m_
+    missing = sorted((written & modnames) - (ra & rg))
+    ctx.check(not missing, R, rs, "every written module global is reset (%d written)" % len(written & modnames),
+              "each module global that a function of the core rebinds or mutates in place is re-initialised by reset_state",
+              "module globals %s are written by the scattered-map core but not re-initialised by reset_state" % missing, rnode)
+    sm = ctx.fn("smgen:SMGen.sample")
+    g_ = CFG(sm.node)
+    rcalls = [st for st in statements(sm.node) if isinstance(st, ast.Expr) and isinstance(st.value, ast.Call) and dotted(st.value.func) == "reset_state"]
+    enc = [st for st in statements(sm.node) if any(isinstance(c, ast.Call) and dotted(c.func) in ("encode_experiment", "add_primary", "add_wt", "add_transition", "define_cross") for c in ast.walk(st))
+           and not isinstance(st, (ast.For, ast.If, ast.While, ast.Try, ast.With))]
+    ctx.require(len(enc) >= 1, "SMGen.sample: encoding calls not found")
+    ok = len(rcalls) == 1 and all(g_.dominates(g_.node_of(rcalls[0]), g_.node_of(e)) for e in enc)
+    ctx.check(ok, R, sm, "reset before encoding (%d encoding statements)" % len(enc), "reset_state() dominates every call that encodes the experiment into the core",
+              "SMGen.sample can encode an experiment into the scattered-map core without having reset it first", rcalls[0] if rcalls else sm.node)
 
 
 def check(ctx):
@@ -146,6 +218,8 @@ def check(ctx):
                               "encode_weights appends to `%s` %d time(s) and to `%s` %d time(s) in one block: the two lists are paired by position later, so weights end up "
                               "attached to the wrong levels" % (a, na, w_, nw), b[0])
     ctx.require(n_blocks >= 4, "encode_weights: only %d blocks with paired appends found" % n_blocks)
+    rule_reset(ctx)
     ctx.min_instances("C29.parallel", 4)
+    ctx.min_instances("C29.reset", 3)
     ctx.min_instances("C29.refusal", 5)
     ctx.min_instances("C29.registry", 16)
